@@ -104,6 +104,39 @@ def thr (num den : Nat) : Nat × Nat :=
 /-- `a < b` on non-negative rationals. -/
 def ltR (a b : Nat × Nat) : Bool := a.1 * b.2 < b.1 * a.2
 
+/-- `M·2^E` as a quotient of naturals. -/
+def ratOf (M : Nat) (E : Int) : Nat × Nat :=
+  if 0 ≤ E then (M * 2 ^ E.toNat, 1) else (M, 2 ^ (-E).toNat)
+
+/-- `a ≤ b` on non-negative rationals. -/
+def leR (a b : Nat × Nat) : Bool := a.1 * b.2 ≤ b.1 * a.2
+
+/-- The greatest number of format `f` strictly below the positive rational `num/den` (for `num/den`
+in the normal range), as significand and exponent. -/
+def floorBelow (f : Fmt) (num den : Nat) : Nat × Int :=
+  match Fl.round f false num den with
+  | .fin _ m e =>
+    if leR (num, den) (ratOf m e) then
+      (if m = 2 ^ (f.p - 1) then (2 ^ f.p - 1, e - 1) else (m - 1, e))
+    else (m, e)
+  | _ => (0, 0)
+
+/-- The facts about the top of a fixed-notation band, for one format, one upper threshold `T` and the
+band's precision: with `F = M·2^E` the greatest number of the format below `T`, `F` is a canonical
+normal number, `T ≤ (M+1)·2^E` (so every number of the format below `T` is at most `F`), and
+`F·10^prec + ½ < 10^(max_digits10+1)` (so the band's largest number still prints `max_digits10+1`
+digits). Evaluated by the kernel for the 3 × 7 (format, band) pairs. -/
+def bandTopOk (fm : Fm) (T : Nat × Nat) (prec : Nat) : Bool :=
+  let f := fm.fmt
+  let F := floorBelow f T.1 T.2
+  let M := F.1
+  let E := F.2
+  decide (2 ^ (f.p - 1) ≤ M) && decide (M < 2 ^ f.p) && decide (f.qmin ≤ E) &&
+  decide (E + ((f.p : Int) - 1) ≤ f.emax) &&
+  leR T (ratOf (M + 1) E) &&
+  (let r := ratOf M E
+   decide (2 * r.1 * 10 ^ prec + r.2 < 2 * 10 ^ (maxDigits10 fm + 1) * r.2))
+
 /-- The interval cascade of `PhQ::Print`: `some prec` = fixed notation with `prec` decimals,
 `none` = scientific notation (with `max_digits10` decimals). -/
 def bandPrec (md : Nat) (a : Nat × Nat) : Option Nat :=
@@ -117,6 +150,11 @@ def bandPrec (md : Nat) (a : Nat × Nat) : Option Nat :=
     else if ltR a (thr 100 1) then some (md - 1) else some (md - 2)
   else if ltR a (thr 10000 1) then some (md - 3)
   else none
+
+/-- The upper threshold and the precision of each fixed-notation band. -/
+def bandTops (md : Nat) : List ((Nat × Nat) × Nat) :=
+  [(thr 1 100, md + 3), (thr 1 10, md + 2), (thr 1 1, md + 1), (thr 10 1, md), (thr 100 1, md - 1),
+   (thr 1000 1, md - 2), (thr 10000 1, md - 3)]
 
 /-- Which notation and digits a finite `x` gets. -/
 def select (fm : Fm) (x : Fl) : Option Printed :=
